@@ -3,6 +3,7 @@ NEXT Next
 INVARIANT NoEarlyWrite
 INVARIANT AttachLast
 INVARIANT Outcome
+INVARIANT ExecRegistryOnly
 INVARIANT SpecCarriesNothing
 INVARIANT DelFrame
 CHECK_DEADLOCK FALSE
